@@ -22,7 +22,7 @@ from vf.ref.gpos import Gpos
 ID = "C10"
 RULE = ("case = generated compatible family (1-2 axes, 2-4 full masters, optional intermediate / "
         "sparse layer masters, axis maps, aligned or ragged per-master kerning with exceptions, "
-        "per-master anchors) x {compileVariableTTF, compileVariableCFF2} x variableFeatures on/off; "
+        "per-master anchors) x {compileVariableTTF, compileVariableCFF2} x variableFeatures on/off (8 %: PropagateAnchors pre-filter, reference = master compiled alone with the filter); "
         "the variable font is instantiated at every full master's location; distinct = sha1 of the "
         "case; non-trivial = the variable font compiled and >= 2 master locations were judged with "
         ">= 1 moving outline point")
